@@ -809,6 +809,7 @@ func (st *Std) inline(call *ast.CallExpr, n ast.Node, s S, cl *Client) []S {
 		}
 		s2 := e.State
 		var rc []string
+		var boolSplit ast.Expr
 		for i, r := range e.Return.Results {
 			t := info.TypeOf(r)
 			if t == nil {
@@ -825,30 +826,27 @@ func (st *Std) inline(call *ast.CallExpr, n ast.Node, s S, cl *Client) []S {
 				if b, ok := t.Underlying().(*types.Basic); ok && b.Info()&types.IsBoolean != 0 {
 					if v, ok := st.FoldExpr(r, s2); ok && v.Kind() == constant.Bool {
 						rc = append(rc, fmt.Sprintf("rc:%d:%d=%v", call.Pos(), i, constant.BoolVal(v)))
+					} else if len(e.Return.Results) == 1 {
+						// a predicate: evaluate the returned condition over the rule's atoms, so
+						// that `return x != "none"` is as transparent as the inline test
+						boolSplit = r
 					}
 				}
 			}
 		}
-		// forget the callee's locals
-		for _, k := range s2.Keys() {
-			if at := strings.LastIndex(k, "@"); at >= 0 && (strings.HasPrefix(k, "v:") || strings.HasPrefix(k, "nn:") || strings.HasPrefix(k, "ev:") || strings.HasPrefix(k, "q:") || strings.HasPrefix(k, "bv:")) {
-				var pos int
-				fmt.Sscanf(k[at+1:], "%d", &pos)
-				if token.Pos(pos) >= lo && token.Pos(pos) <= hi {
-					s2 = s2.Del(k)
+		if boolSplit != nil {
+			ts, fs := st.Eval.Eval(boolSplit, s2)
+			emit := func(states []S, val string) {
+				for _, z := range states {
+					z = st.stripLocals(z, lo, hi)
+					out = append(out, z.Set(fmt.Sprintf("rc:%d:0", call.Pos()), val))
 				}
 			}
+			emit(ts, "true")
+			emit(fs, "false")
+			continue
 		}
-		// results of calls made inside the callee are not the caller's business
-		for _, k := range s2.Keys() {
-			if strings.HasPrefix(k, "rc:") {
-				var pos int
-				fmt.Sscanf(k[3:], "%d", &pos)
-				if token.Pos(pos) >= lo && token.Pos(pos) <= hi {
-					s2 = s2.Del(k)
-				}
-			}
-		}
+		s2 = st.stripLocals(s2, lo, hi)
 		for _, kv := range rc {
 			i := strings.Index(kv, "=")
 			s2 = s2.Set(kv[:i], kv[i+1:])
@@ -860,4 +858,26 @@ func (st *Std) inline(call *ast.CallExpr, n ast.Node, s S, cl *Client) []S {
 		return []S{s}
 	}
 	return out
+}
+
+// stripLocals forgets what the state knows about the locals (and inner call
+// results) of a callee whose body spans [lo, hi].
+func (st *Std) stripLocals(s2 S, lo, hi token.Pos) S {
+	for _, k := range s2.Keys() {
+		if at := strings.LastIndex(k, "@"); at >= 0 && (strings.HasPrefix(k, "v:") || strings.HasPrefix(k, "nn:") || strings.HasPrefix(k, "ev:") || strings.HasPrefix(k, "q:") || strings.HasPrefix(k, "bv:") || strings.HasPrefix(k, "x:")) {
+			var pos int
+			fmt.Sscanf(k[at+1:], "%d", &pos)
+			if token.Pos(pos) >= lo && token.Pos(pos) <= hi {
+				s2 = s2.Del(k)
+			}
+		}
+		if strings.HasPrefix(k, "rc:") {
+			var pos int
+			fmt.Sscanf(k[3:], "%d", &pos)
+			if token.Pos(pos) >= lo && token.Pos(pos) <= hi {
+				s2 = s2.Del(k)
+			}
+		}
+	}
+	return s2
 }
